@@ -28,6 +28,16 @@ def o_only(src, datas, kw):
     return None
 
 
+@C.oracle('only_construct_errors_build')
+def o_only_build(src, objs, kw):
+    c = C.get(src)
+    for v in objs:
+        r = outcome(lambda: c.build(v, **kw))
+        if r[0] == 'foreign':
+            return 'build(%r) raised %s, which is not a ConstructError' % (v, r[1])
+    return None
+
+
 @C.oracle('terminates')
 def o_terminates(src, data):
     c = C.get(src)
@@ -216,6 +226,15 @@ def run(tier, seed):
         acc.check('only_construct_errors', src, datas=datas, kw={})
         for d in datas[:8]:
             cases.append(dict(src=src, op='parse', data=d))
+    # every codec name a string field may be given: common, uncommon (their own error classes), non-text and unknown ones
+    for enc in ['utf8', 'utf16', 'utf32', 'ascii', 'latin1', 'cp1252', 'utf_7', 'utf_16_be', 'utf_32_le', 'shift_jis', 'gb18030', 'big5', 'euc_kr',
+                'punycode', 'idna', 'raw_unicode_escape', 'unicode_escape', 'hex', 'base64', 'rot13', 'zlib', 'undefined', 'utf-9', 'no-such-codec']:
+        for tmpl in ('GreedyString(%r)', 'PascalString(Byte, %r)', 'Struct("s"/Prefixed(VarInt, GreedyString(%r)), "t"/Byte)'):
+            src = tmpl % enc
+            datas = [b'a..b', b'\x06xn--a-', b'xn--', b'\x04xn--\x00', b'\xff\xfe\xfd', b'\x80abc', b'+2D', b'\\u12', b'\\x', b'\x81', b'\x03\x8f\xa1\xa1', b'', b'\x02ab\x01',
+                     b'\x05\xe3\x81\x82\xe3\x81', b'\x82\xa0\x82', b'\x07.a..b.-'] + [G.rand_bytes(rng, rng.randint(1, 9)) for _ in range(4)]
+            acc.check('only_construct_errors', src, datas=datas, kw={})
+        acc.check('only_construct_errors_build', 'GreedyString(%r)' % enc, objs=['a..b', '', 'abc', 'h\u00e9llo', '\u3042', '\ud800', 'a' * 70 + '.b', '-x.', 'xn--a'], kw={})
     # truncation of strict templates
     for src, v in [('Struct("a"/Int16ub, "b"/Padded(8, Int16ub), Padding(3))', dict(a=1, b=2)), ('AlignedStruct(4, "a"/Byte, "b"/Int16ub)', dict(a=1, b=2)),
                    ('Struct("tag"/Int16ub, "body"/Padded(8, Int16ub))', dict(tag=1, body=2)), ('Aligned(4, Byte)', 1), ('Padding(5)', None),
